@@ -809,9 +809,11 @@ func seeBatteryOps(o *Out, seed uint64, n int) {
 			board[s] = c
 			return true
 		}
+		// sparse mode: very few attackers, both kings next to the target (king recaptures decide)
+		sparse := rng.Intn(3) == 0
 		// sliders stacked on rays
 		for _, d := range dirs {
-			if rng.Intn(3) == 0 {
+			if rng.Intn(3) == 0 || (sparse && rng.Intn(5) != 0) {
 				continue
 			}
 			diag := d[0] != 0 && d[1] != 0
@@ -844,7 +846,7 @@ func seeBatteryOps(o *Out, seed uint64, n int) {
 		}
 		// knights and pawns
 		for _, o2 := range [][2]int{{1, 2}, {2, 1}, {2, -1}, {1, -2}, {-1, -2}, {-2, -1}, {-2, 1}, {-1, 2}} {
-			if rng.Intn(3) == 0 {
+			if rng.Intn(3) == 0 && !(sparse && rng.Intn(4) != 0) {
 				f, r := t%8+o2[0], t/8+o2[1]
 				if f >= 0 && f < 8 && r >= 0 && r < 8 {
 					c := byte('n')
@@ -860,10 +862,10 @@ func seeBatteryOps(o *Out, seed uint64, n int) {
 			if f < 0 || f > 7 {
 				continue
 			}
-			if rng.Intn(2) == 0 && board[(t/8-1)*8+f] == 0 {
+			if rng.Intn(2) == 0 && !(sparse && rng.Intn(3) != 0) && board[(t/8-1)*8+f] == 0 {
 				put((t/8-1)*8+f, 'P') // white pawn attacks upwards
 			}
-			if rng.Intn(2) == 0 && board[(t/8+1)*8+f] == 0 {
+			if rng.Intn(2) == 0 && !(sparse && rng.Intn(3) != 0) && board[(t/8+1)*8+f] == 0 {
 				put((t/8+1)*8+f, 'p')
 			}
 		}
@@ -873,7 +875,7 @@ func seeBatteryOps(o *Out, seed uint64, n int) {
 			placed := false
 			for k := 0; k < 40 && !placed; k++ {
 				s := rng.Intn(64)
-				if rng.Intn(2) == 0 {
+				if rng.Intn(2) == 0 || sparse {
 					d := dirs[rng.Intn(8)]
 					f, r := t%8+d[0], t/8+d[1]
 					if f < 0 || f > 7 || r < 0 || r > 7 {
